@@ -28,6 +28,9 @@ CONSTANTS
   FailSaves = TRUE
   Focus = TRUE
   Record = TRUE
+  RM = FALSE
+  Slots = 1
+  RmUuids = {1, 2}
   Scrapes = FALSE
   Marking = FALSE
   WindAt = 0
